@@ -77,7 +77,19 @@ def check_l1(tree, lens):
 
 
 # ------------------------------------------------------------------ L2
-def check_l2(tree, lens):
+ODD = {"none": None, "zero": 0, "empty": "", "false": False, "list": [], "fzero": 0.0}
+
+
+def field_values(f, n, odd):
+    """tagged values; `odd` = {field: [index, kind]} puts one falsy/None element in the list"""
+    out = vals(f, n)
+    if odd and f in odd and n:
+        i, kind = odd[f]
+        out[i % n] = ODD[kind]
+    return out
+
+
+def check_l2(tree, lens, odd=None, implicit=False):
     from vlib.tasks import Tag, read_log
 
     d = scratchdir.new("c01")
@@ -87,7 +99,11 @@ def check_l2(tree, lens):
         kind, rows = R.verdict(tree, lens)
         consts = {f: f.upper() for f in "abcd" if f not in fields}
         try:
-            task = Tag(log=log, **consts).split(R.to_py(tree), **{f: vals(f, lens[f]) for f in fields})
+            lists = {f: field_values(f, lens[f], odd) for f in fields}
+            if implicit:  # keyword-only spelling: the fields in keyword order, outer product
+                task = Tag(log=log, **consts).split(**lists)
+            else:
+                task = Tag(log=log, **consts).split(R.to_py(tree), **lists)
             outs = task(cache_root=d / "cache", worker="debug")
             got = [o for o in outs.out]
             exc = None
@@ -96,14 +112,16 @@ def check_l2(tree, lens):
         ran = read_log(log)
         if kind == "ok":
             exp = []
+            lists = {f: field_values(f, lens[f], odd) for f in fields}
             for r in rows:
-                exp.append([f"{f}{r[f]}" if f in r else f.upper() for f in "abcd"])
+                exp.append([lists[f][r[f]] if f in r else f.upper() for f in "abcd"])
+            tag = ("-implicit" if implicit else "") + ("-odd-element" if odd else "")
             if exc is not None:
-                return [dict(signature=exception_signature(exc, "l2-valid-split-raises"),
+                return [dict(signature=exception_signature(exc, "l2-valid-split-raises" + tag),
                              observed=short(exc), expected=exp[:6])]
-            if got != exp:
+            if repr(got) != repr(exp):
                 sig = "l2-order" if sorted(map(repr, got)) == sorted(map(repr, exp)) else "l2-outputs"
-                return [dict(signature=sig, observed=got[:12], expected=exp[:12])]
+                return [dict(signature=sig + tag, observed=repr(got[:12]), expected=repr(exp[:12]))]
             if sorted(map(repr, ran)) != sorted(map(repr, exp)):
                 return [dict(signature="l2-executions", observed=ran[:12], expected=exp[:12],
                              detail="set of executed job inputs differs from the expansion")]
@@ -126,7 +144,7 @@ def check_l2(tree, lens):
 def check_case(case):
     if case["level"] == "L1":
         return check_l1(case["tree"], case["lens"])
-    return check_l2(case["tree"], case["lens"])
+    return check_l2(case["tree"], case["lens"], case.get("odd"), case.get("implicit", False))
 
 
 # ------------------------------------------------------------------ generators
@@ -159,7 +177,18 @@ def l2_case(draw):
             lens[draw(st.sampled_from(fields))] = draw(st.integers(0, 3))
     else:
         lens = {f: draw(st.integers(0, 3)) for f in fields}
-    return dict(level="L2", tree=tree, lens=lens)
+    case = dict(level="L2", tree=tree, lens=lens)
+    if draw(st.integers(0, 3)) == 0:  # one None / falsy element in some of the lists
+        odd = {}
+        for f in fields:
+            if draw(st.booleans()):
+                odd[f] = [draw(st.integers(0, 2)), draw(st.sampled_from(sorted(ODD)))]
+        if odd:
+            case["odd"] = odd
+    flat = R.is_leaf(tree) or (tree[0] == "O" and all(R.is_leaf(k) for k in tree[1]))
+    if flat and draw(st.integers(0, 2)) == 0:
+        case["implicit"] = True
+    return case
 
 
 def l1_space(tier):
@@ -200,7 +229,9 @@ def run(sh):
 
     def body(case):
         kind, _ = R.verdict(case["tree"], case["lens"])
-        sh.run_case(case, nontrivial=R.nontrivial(case["tree"]), labels=(f"l2_{kind}",),
+        labels = [f"l2_{kind}"] + (["l2_odd_element"] if case.get("odd") else []) + (
+            ["l2_implicit_kwargs_splitter"] if case.get("implicit") else [])
+        sh.run_case(case, nontrivial=R.nontrivial(case["tree"]) or bool(case.get("odd")), labels=labels,
                     raise_unattributed=True)
 
-    sh.given(l2_case(), body, sh.budget(160, 2400), tag="l2")
+    sh.given(l2_case(), body, sh.budget(640, 6000), tag="l2")
